@@ -260,3 +260,350 @@ theorem bodyLoop_refines (c : FCfg) (unescape : String → Option String) (bs : 
         · rfl
 
 end Xml
+
+namespace Xml
+
+/-! ### one statement -/
+
+def stmtAbs (c : FCfg) (parseExpr unescape : String → Option String) (s : Stmt) : Except Err (Option (String × FExpr)) :=
+  match attrsAbs parseExpr none s.attrs with
+  | .inactive => .ok none
+  | .expr none => .ok none
+  | .expr (some fe) =>
+    match bodyAbs c unescape {} s.body with
+    | .error e => .error e
+    | .ok st => st.finish fe
+
+theorem Stmt.render_eq (s : Stmt) (tail : List Ev) :
+    s.render ++ tail = .start s.tag :: (s.body.flatMap BodyItem.render ++ .end s.raw :: tail) := by
+  simp [Stmt.render]
+
+theorem Stmt.render_length (s : Stmt) : s.render.length = (s.body.flatMap BodyItem.render).length + 2 := by
+  simp [Stmt.render]
+
+theorem readCandidate_refines (c : FCfg) (parseExpr unescape : String → Option String) (s : Stmt)
+    (hwf : s.WF unescape) (fuel : Nat) (tail : List Ev) (hf : s.render.length ≤ fuel + 1) :
+    readCandidate c parseExpr unescape fuel s.tag (s.body.flatMap BodyItem.render ++ .end s.raw :: tail)
+      = liftR (stmtAbs c parseExpr unescape s) tail := by
+  rw [Stmt.render_length] at hf
+  have hskip : ∀ {α}, (skipStmt s.tag (s.body.flatMap BodyItem.render ++ .end s.raw :: tail) : Except Err (Option α × List Ev))
+      = .ok (none, tail) := by
+    intro α
+    have := skipToEnd_elem s.raw _ tail hwf.inert
+    simp only [skipStmt, Stmt.tag, xnmTag]
+    rw [this]
+  unfold readCandidate stmtAbs
+  have ha : attrLoop parseExpr none s.tag.attrs = .ok (attrsAbs parseExpr none s.attrs) := by
+    simpa [Stmt.tag, xnmTag] using attrLoop_spec parseExpr s.attrs hwf.attrs none
+  rw [ha]
+  cases hx : attrsAbs parseExpr none s.attrs with
+  | inactive => simp only []; rw [hskip]; rfl
+  | expr e =>
+    cases e with
+    | none => simp only []; rw [hskip]; rfl
+    | some fe =>
+      simp only []
+      have hb := bodyLoop_refines c unescape s.body hwf.body fuel s.raw {} tail (by omega)
+      have : s.tag.raw = s.raw := rfl
+      rw [this, hb]
+      cases hr : bodyAbs c unescape {} s.body with
+      | error e => simp
+      | ok st =>
+        simp only [liftR_ok]
+        cases st.finish fe <;> simp
+
+/-! ### Policies<T>: the three outer loops, generic in the statement reader -/
+
+/-- child-level semantics of `policyOptionsLoop` for a statement semantics `sem` -/
+def poAbs {T} (sem : Stmt → Except Err (Option (String × T))) (map : List (String × T)) : List PoItem →
+    Except Err (List (String × T))
+  | [] => .ok map
+  | .comment :: is => poAbs sem map is
+  | .stmt s :: is =>
+    match sem s with
+    | .error e => .error e
+    | .ok none => poAbs sem map is
+    | .ok (some (n, p)) => if map.any (·.1 == n) then .error .other else poAbs sem (map ++ [(n, p)]) is
+
+/-- `rd` reads every statement of `ss` as `sem` says -/
+def Reads {T} (rd : StmtReader T) (sem : Stmt → Except Err (Option (String × T))) (ss : List Stmt) : Prop :=
+  ∀ s ∈ ss, ∀ (fuel : Nat) (tail : List Ev), s.render.length ≤ fuel + 1 →
+    rd fuel s.tag (s.body.flatMap BodyItem.render ++ .end s.raw :: tail) = liftR (sem s) tail
+
+def stmtsOf (items : List PoItem) : List Stmt := items.filterMap fun | .stmt s => some s | .comment => none
+
+theorem Stmt.tag_is (s : Stmt) : s.tag.is XNM "policy-statement" = true := by simp [Stmt.tag, xnmTag_is]
+
+theorem policyOptionsLoop_refines {T} (rd : StmtReader T) (sem : Stmt → Except Err (Option (String × T)))
+    (items : List PoItem) (hrd : Reads rd sem (stmtsOf items)) (fuel : Nat) (raw : String)
+    (map : List (String × T)) (rest : List Ev) (hf : (items.flatMap PoItem.render).length + 1 ≤ fuel) :
+    policyOptionsLoop rd fuel raw map (items.flatMap PoItem.render ++ .end raw :: rest)
+      = liftR (poAbs sem map items) rest := by
+  induction items generalizing fuel map with
+  | nil =>
+    obtain ⟨f, rfl⟩ : ∃ f, fuel = f + 1 := ⟨fuel - 1, by omega⟩
+    simp [policyOptionsLoop, poAbs]
+  | cons x is ih =>
+    obtain ⟨f, rfl⟩ : ∃ f, fuel = f + 1 := ⟨fuel - 1, by omega⟩
+    simp only [List.flatMap_cons, List.append_assoc, List.length_append] at hf ⊢
+    cases x with
+    | comment =>
+      have hrd' : Reads rd sem (stmtsOf is) := by simpa [stmtsOf] using hrd
+      simp only [PoItem.render, List.cons_append, List.nil_append, policyOptionsLoop, poAbs, List.length_cons, List.length_nil] at hf ⊢
+      exact ih hrd' f _ (by omega)
+    | stmt s =>
+      have hrd' : Reads rd sem (stmtsOf is) := fun y hy => hrd y (by simp [stmtsOf] at hy ⊢; exact Or.inr hy)
+      have hs := hrd s (by simp [stmtsOf]) f (List.flatMap PoItem.render is ++ Ev.end raw :: rest)
+        (by simp only [PoItem.render] at hf; omega)
+      simp only [PoItem.render] at hf ⊢
+      rw [Stmt.render_eq, policyOptionsLoop]
+      simp only [Stmt.tag_is, if_true, hs, poAbs]
+      have hl : 2 ≤ s.render.length := by rw [Stmt.render_length]; omega
+      cases hsem : sem s with
+      | error e => simp
+      | ok v =>
+        cases v with
+        | none => simp only [liftR_ok]; exact ih hrd' f _ (by omega)
+        | some np =>
+          obtain ⟨n, p⟩ := np
+          simp only [liftR_ok]
+          split
+          · rfl
+          · exact ih hrd' f _ (by omega)
+
+theorem configurationLoop_comments {T} (rd : StmtReader T) (n fuel : Nat) (raw : String) (seen : Bool)
+    (map : List (String × T)) (tail : List Ev) :
+    configurationLoop rd (fuel + n) raw seen map (comments n ++ tail) = configurationLoop rd fuel raw seen map tail := by
+  induction n with
+  | zero => simp [comments]
+  | succ n ih =>
+    have : comments (n + 1) ++ tail = .comment :: (comments n ++ tail) := by simp [comments, List.replicate_succ]
+    rw [this, ← Nat.add_assoc, configurationLoop]
+    exact ih
+
+theorem policiesLoop_comments {T} (rd : StmtReader T) (n fuel : Nat) (raw : String)
+    (this : Option (List (String × T))) (tail : List Ev) :
+    policiesLoop rd (fuel + n) raw this (comments n ++ tail) = policiesLoop rd fuel raw this tail := by
+  induction n with
+  | zero => simp [comments]
+  | succ n ih =>
+    have h : comments (n + 1) ++ tail = .comment :: (comments n ++ tail) := by simp [comments, List.replicate_succ]
+    rw [h, ← Nat.add_assoc, policiesLoop]
+    exact ih
+
+theorem Config.render_length (cfg : Config) (dataRaw : String) :
+    (cfg.render dataRaw).length = cfg.c1 + cfg.c2 + cfg.c3 + cfg.c4 + (cfg.items.flatMap PoItem.render).length + 5 := by
+  simp [Config.render, comments]; omega
+
+/-- **the three outer loops on a rendered configuration** -/
+theorem policiesLoop_render {T} (rd : StmtReader T) (sem : Stmt → Except Err (Option (String × T)))
+    (cfg : Config) (hrd : Reads rd sem cfg.stmts) (dataRaw : String) (rest : List Ev) (fuel : Nat)
+    (hf : (cfg.render dataRaw).length + 1 ≤ fuel) :
+    policiesLoop rd fuel dataRaw none (cfg.render dataRaw ++ rest) = poAbs sem [] cfg.items := by
+  rw [Config.render_length] at hf
+  obtain ⟨f, rfl⟩ : ∃ f, fuel = (((f + cfg.c4 + 1 + 1) + cfg.c3 + 1) + cfg.c2 + 1 + 1) + cfg.c1 :=
+    ⟨fuel - (cfg.c1 + cfg.c2 + cfg.c3 + cfg.c4 + 5), by omega⟩
+  have hfi : (cfg.items.flatMap PoItem.render).length + 1 ≤ f + cfg.c4 + 1 := by omega
+  simp only [Config.render, List.append_assoc, List.cons_append]
+  rw [policiesLoop_comments, policiesLoop]
+  simp only [xnmTag_is, beq_self_eq_true, Option.isNone_none, Bool.and_self, if_true]
+  have e1 : (f + cfg.c4 + 1 + 1 + cfg.c3 + 1 + cfg.c2 + 1) = ((f + cfg.c4 + 1 + 1 + cfg.c2 + 1) + 1) + cfg.c3 := by omega
+  have hraw : ∀ l r a s, (xnmTag l r a s).raw = r := fun _ _ _ _ => rfl
+  rw [hraw, e1, configurationLoop_comments, configurationLoop]
+  simp only [xnmTag_is, beq_self_eq_true, Bool.not_false, Bool.and_self, if_true, hraw]
+  have hpo := policyOptionsLoop_refines rd sem cfg.items hrd (f + cfg.c4 + 1 + 1 + cfg.c2 + 1) cfg.poRaw []
+    (comments cfg.c4 ++ .end cfg.confRaw :: (comments cfg.c2 ++ .end dataRaw :: rest)) (by omega)
+  simp only [List.nil_append] at hpo ⊢
+  rw [hpo]
+  cases hr : poAbs sem [] cfg.items with
+  | error e => simp
+  | ok map =>
+    simp only [liftR_ok]
+    have e2 : f + cfg.c4 + 1 + 1 + cfg.c2 + 1 = (f + 1 + 1 + cfg.c2 + 1) + cfg.c4 := by omega
+    rw [e2, configurationLoop_comments]
+    have e3 : f + 1 + 1 + cfg.c2 + 1 = (f + 1 + 1 + cfg.c2) + 1 := by omega
+    rw [e3, configurationLoop]
+    simp only [beq_self_eq_true, if_true]
+    rw [← e3, ← e2, ← e1]
+    have e5 : f + cfg.c4 + 1 + 1 + cfg.c3 + 1 + cfg.c2 + 1 = (f + cfg.c4 + 1 + 1 + cfg.c3 + 1 + 1) + cfg.c2 := by omega
+    rw [e5, policiesLoop_comments, policiesLoop]
+    simp
+
+end Xml
+
+namespace Xml
+
+/-! ### the repaired code computes the specification -/
+
+@[simp] theorem FCfg.fixed_skipOther : FCfg.fixed.skipOther = true := rfl
+@[simp] theorem FCfg.fixed_thenOnce : FCfg.fixed.thenOnce = true := rfl
+@[simp] theorem FCfg.pinned_skipOther : FCfg.pinned.skipOther = false := rfl
+@[simp] theorem FCfg.pinned_thenOnce : FCfg.pinned.thenOnce = false := rfl
+
+theorem thenAbs_fixed (cs : List ThenItem) (rj ot : Bool) :
+    thenAbs .fixed rj ot cs = .ok (rj || cs.any ThenItem.isReject, ot || cs.any ThenItem.isDirty) := by
+  induction cs generalizing rj ot with
+  | nil => simp [thenAbs]
+  | cons x cs ih =>
+    cases x with
+    | empty t =>
+      simp only [thenAbs, FCfg.fixed_skipOther, if_true]
+      split <;> rw [ih] <;> simp [ThenItem.isReject, ThenItem.isDirty, ThenItem.isComment, *]
+    | comment => simp only [thenAbs]; rw [ih]; simp [ThenItem.isReject, ThenItem.isDirty, ThenItem.isComment]
+    | elem t i => simp only [thenAbs, FCfg.fixed_skipOther, if_true]; rw [ih]; simp [ThenItem.isReject, ThenItem.isDirty, ThenItem.isComment]
+    | text s => simp only [thenAbs, FCfg.fixed_skipOther, if_true]; rw [ih]; simp [ThenItem.isReject, ThenItem.isDirty, ThenItem.isComment]
+    | cdata => simp only [thenAbs, FCfg.fixed_skipOther, if_true]; rw [ih]; simp [ThenItem.isReject, ThenItem.isDirty, ThenItem.isComment]
+
+theorem bodyNames_cons (b : BodyItem) (bs : List BodyItem) :
+    bodyNames (b :: bs) = (match b with | .name _ _ span _ => [span] | _ => []) ++ bodyNames bs := by
+  cases b <;> rfl
+
+theorem bodyThens_cons (b : BodyItem) (bs : List BodyItem) :
+    bodyThens (b :: bs) = (match b with | .then_ _ _ _ cs => [cs] | _ => []) ++ bodyThens bs := by
+  cases b <;> rfl
+
+/-- what the body scan of the repaired code ends with, as a function of the whole body -/
+def bodyFinal (unescape : String → Option String) (st : BodySt) (bs : List BodyItem) : BodySt :=
+  { name := if st.name.isSome then st.name else (bodyNames bs).head?.bind unescape
+    reject := st.reject || (!st.thenSeen && (bodyThens bs).head?.any (·.any ThenItem.isReject))
+    thenSeen := st.thenSeen || !(bodyThens bs).isEmpty
+    other := st.other || bs.any BodyItem.isOther
+            || decide (1 < (bodyNames bs).length + st.name.isSome.toNat)
+            || decide (1 < (bodyThens bs).length + st.thenSeen.toNat)
+            || (!st.thenSeen && (bodyThens bs).head?.any (·.any ThenItem.isDirty)) }
+
+theorem BodySt.ext' {a b : BodySt} (h1 : a.name = b.name) (h2 : a.reject = b.reject) (h3 : a.thenSeen = b.thenSeen)
+    (h4 : a.other = b.other) : a = b := by
+  cases a; cases b; simp_all
+
+theorem bodyAbs_fixed (unescape : String → Option String) (bs : List BodyItem)
+    (hwf : ∀ b ∈ bs, b.WF unescape) (st : BodySt) :
+    bodyAbs .fixed unescape st bs = .ok (bodyFinal unescape st bs) := by
+  induction bs generalizing st with
+  | nil =>
+    simp only [bodyAbs, Except.ok.injEq]
+    apply BodySt.ext' <;> simp [bodyFinal, bodyNames, bodyThens]
+    all_goals (cases st.name <;> cases st.thenSeen <;> simp)
+  | cons b bs ih =>
+    have hwf' : ∀ b ∈ bs, b.WF unescape := fun y hy => hwf y (by simp [hy])
+    have hb := hwf b (by simp)
+    cases b with
+    | comment =>
+      simp only [bodyAbs]; rw [ih hwf']
+      simp [bodyFinal, bodyNames_cons, bodyThens_cons, BodyItem.isOther]
+    | elem t inner =>
+      simp only [bodyAbs, FCfg.fixed_skipOther, if_true]; rw [ih hwf']
+      simp [bodyFinal, bodyNames_cons, bodyThens_cons, BodyItem.isOther]
+    | empty t =>
+      simp only [bodyAbs, FCfg.fixed_skipOther, if_true]; rw [ih hwf']
+      simp [bodyFinal, bodyNames_cons, bodyThens_cons, BodyItem.isOther]
+    | text s =>
+      simp only [bodyAbs, FCfg.fixed_skipOther, if_true]; rw [ih hwf']
+      simp [bodyFinal, bodyNames_cons, bodyThens_cons, BodyItem.isOther]
+    | cdata =>
+      simp only [bodyAbs, FCfg.fixed_skipOther, if_true]; rw [ih hwf']
+      simp [bodyFinal, bodyNames_cons, bodyThens_cons, BodyItem.isOther]
+    | name nraw attrs span inner =>
+      obtain ⟨_, hu⟩ := hb
+      obtain ⟨n, hn⟩ := Option.isSome_iff_exists.mp hu
+      cases hnm : st.name with
+      | none =>
+        simp only [bodyAbs, hnm, Option.isNone_none, if_true, hn]; rw [ih hwf']
+        simp only [Except.ok.injEq]
+        apply BodySt.ext' <;> simp [bodyFinal, bodyNames_cons, bodyThens_cons, BodyItem.isOther, hnm, hn]
+      | some m =>
+        simp only [bodyAbs, hnm, Option.isNone_some, Bool.false_eq_true, if_false, FCfg.fixed_skipOther, if_true]; rw [ih hwf']
+        simp only [Except.ok.injEq]
+        apply BodySt.ext' <;> simp [bodyFinal, bodyNames_cons, bodyThens_cons, BodyItem.isOther, hnm]
+    | then_ traw attrs span cs =>
+      cases hts : st.thenSeen with
+      | false =>
+        simp only [bodyAbs, BodySt.thenOpen, FCfg.fixed_thenOnce, if_true, hts, Bool.not_false, thenAbs_fixed]; rw [ih hwf']
+        simp only [Except.ok.injEq]
+        apply BodySt.ext' <;> simp [bodyFinal, bodyNames_cons, bodyThens_cons, BodyItem.isOther, hts]
+        ac_rfl
+      | true =>
+        simp only [bodyAbs, BodySt.thenOpen, FCfg.fixed_thenOnce, if_true, hts, Bool.not_true, Bool.false_eq_true, if_false,
+          FCfg.fixed_skipOther]; rw [ih hwf']
+        simp only [Except.ok.injEq]
+        apply BodySt.ext' <;> simp [bodyFinal, bodyNames_cons, bodyThens_cons, BodyItem.isOther, hts]
+
+end Xml
+
+namespace Xml
+
+theorem attrsAbs_eq (parseExpr : String → Option String) (s : Stmt) :
+    attrsAbs parseExpr none s.attrs
+      = if s.inactive then .inactive else .expr (s.annotation.map (toFExpr parseExpr)) := by
+  unfold attrsAbs Stmt.inactive Stmt.annotation Stmt.annotations
+  have : (fun a : Attr => if a.isComment then a.value.bind annotationRaw else none) = annOf := by
+    funext a; rfl
+  rw [this]
+  split
+  · rfl
+  · cases (List.filterMap annOf s.attrs).getLast? <;> rfl
+
+theorem all_clean_eq (cs : List ThenItem) :
+    (cs.all fun c => c.isReject || c.isComment) = !cs.any ThenItem.isDirty := by
+  induction cs with
+  | nil => rfl
+  | cons c cs ih => simp [List.all_cons, List.any_cons, ih, ThenItem.isDirty]
+
+theorem keyed_names (bs : List BodyItem) (h : bs.any BodyItem.isName = true) : 1 ≤ (bodyNames bs).length := by
+  induction bs with
+  | nil => simp at h
+  | cons b bs ih =>
+    rw [bodyNames_cons]
+    cases b <;> simp only [List.any_cons, BodyItem.isName, Bool.false_or, Bool.true_or] at h <;>
+      simp only [List.nil_append, List.cons_append, List.length_cons] <;> first | omega | exact ih h
+
+theorem names_head_wf (unescape : String → Option String) (bs : List BodyItem) (hwf : ∀ b ∈ bs, b.WF unescape)
+    (span : String) (h : (bodyNames bs).head? = some span) : (unescape span).isSome := by
+  induction bs with
+  | nil => simp [bodyNames] at h
+  | cons b bs ih =>
+    have hwf' : ∀ b ∈ bs, b.WF unescape := fun y hy => hwf y (by simp [hy])
+    have hb := hwf b (by simp)
+    rw [bodyNames_cons] at h
+    cases b <;> simp only [List.nil_append, List.cons_append, List.head?_cons, Option.some.injEq] at h
+    case name => subst h; exact hb.2
+    all_goals exact ih hwf' h
+
+/-- **one statement: the repaired reader decides exactly `selected`** -/
+theorem stmtAbs_fixed (parseExpr unescape : String → Option String) (s : Stmt) (hwf : s.WF unescape) :
+    stmtAbs .fixed parseExpr unescape s = .ok (s.selected parseExpr unescape) := by
+  unfold stmtAbs Stmt.selected
+  rw [attrsAbs_eq]
+  cases hi : s.inactive with
+  | true => simp
+  | false =>
+    simp only [Bool.false_eq_true, if_false]
+    cases ha : s.annotation with
+    | none => simp
+    | some raw =>
+      simp only [Option.map_some, bodyAbs_fixed unescape s.body hwf.body]
+      have hk := keyed_names s.body hwf.keyed
+      unfold BodySt.finish Stmt.defaultReject Stmt.names Stmt.thens
+      simp only [bodyFinal]
+      cases hn : bodyNames s.body with
+      | nil => simp [hn] at hk
+      | cons span ns =>
+        obtain ⟨n, hu⟩ := Option.isSome_iff_exists.mp (names_head_wf unescape s.body hwf.body span (by simp [hn]))
+        cases ht : bodyThens s.body with
+        | nil => simp
+        | cons cs ts =>
+          cases ts with
+          | nil =>
+            simp only [isDefaultReject, all_clean_eq]
+            cases ns with
+            | nil =>
+              simp only [hn, ht, List.head?_cons, Option.any_some, Option.bind_some, hu, List.length_cons, List.length_nil,
+                Option.isSome_none, Bool.toNat_false, Bool.not_false, Bool.true_and, Bool.false_or, Option.map_some]
+              generalize s.body.any BodyItem.isOther = o
+              generalize cs.any ThenItem.isReject = r
+              generalize cs.any ThenItem.isDirty = d
+              cases o <;> cases r <;> cases d <;> simp [hu]
+            | cons m ms => simp
+          | cons cs' ts' => simp
+
+end Xml
